@@ -445,14 +445,29 @@ func main() {
 	if repo == "" {
 		repo = "/repo"
 	}
-	dir := filepath.Join(repo, "internal", "server")
+	text, results, err := generate(filepath.Join(repo, "internal", "server"))
+	if err != nil {
+		fmt.Fprintln(os.Stderr, err)
+		os.Exit(1)
+	}
+	if err := os.WriteFile(os.Args[1], []byte(text), 0o644); err != nil {
+		fmt.Fprintln(os.Stderr, err)
+		os.Exit(1)
+	}
+	if len(os.Args) > 2 {
+		j, _ := json.MarshalIndent(results, "", " ")
+		os.WriteFile(os.Args[2], j, 0o644)
+	}
+}
+
+// generate translates the functions of the package in dir; the text of GenFacts.v and one result per function.
+func generate(dir string) (string, []*result, error) {
 	fset := token.NewFileSet()
 	files := []*ast.File{}
 	for _, n := range []string{"target.go", "load_balancer.go"} {
 		f, err := parser.ParseFile(fset, filepath.Join(dir, n), nil, parser.SkipObjectResolution)
 		if err != nil {
-			fmt.Fprintln(os.Stderr, err)
-			os.Exit(1)
+			return "", nil, err
 		}
 		files = append(files, f)
 	}
@@ -598,12 +613,5 @@ func main() {
 			b.WriteString("Definition " + r.Name + "_translated := false.\n\n")
 		}
 	}
-	if err := os.WriteFile(os.Args[1], []byte(b.String()), 0o644); err != nil {
-		fmt.Fprintln(os.Stderr, err)
-		os.Exit(1)
-	}
-	if len(os.Args) > 2 {
-		j, _ := json.MarshalIndent(results, "", " ")
-		os.WriteFile(os.Args[2], j, 0o644)
-	}
+	return b.String(), results, nil
 }
